@@ -4,7 +4,11 @@
 // ssh-ed25519, ssh-rsa, plus the recipients derived by Identity.Recipient(),
 // which alias the identity's key material) is used by 2..128 goroutines at
 // GOMAXPROCS 2/4/16 for encrypting and decrypting payloads of 0 B..200 KiB,
-// every I/O call going through mon.PerturbWriter / mon.PerturbReader.
+// every I/O call going through mon.PerturbWriter / mon.PerturbReader. The
+// values are also held in shared LISTS ([]age.Identity in three orders,
+// []age.Recipient) that are spread with ... into the concurrent calls, with
+// files rotating over which list element matches; after every round the lists
+// must be unchanged and a sequential pass with them must still work.
 //
 // Oracles: (a) the Go race detector — the binary is built with -race, GORACE
 // sends reports to files under $VERIF_SCRATCH, and every distinct report whose
@@ -192,7 +196,8 @@ func main() {
 		"the race detector reports only races that the executed schedules expose (happens-before based; history_size=5)",
 		"one atomic counter stamps call/return; being a synchronisation point it makes two operations unordered for the detector exactly when their intervals overlap",
 		"scrypt work factor 5 (cost only); RSA keys of 2048 bits; payloads 0 B, 1 B, 65 KiB, 200 KiB",
-		"operations per goroutine: 12/6/3/2 for 2/8/32/128 goroutines",
+		"operations per goroutine: 12/4/2/1 for 2/8/32/128 goroutines; shared values and shared lists are constructed afresh for every round",
+		"shared lists: three []age.Identity orders of the four identities and two []age.Recipient lists, spread with ... into the calls; checked unchanged after every round that used them, plus a sequential pass",
 		"EncryptedSSHIdentity (caches the decrypted key) and plugin values are outside the property's list of types and are not exercised",
 		"decryption inputs and the check of encryption outputs come from the reference implementation (refage), validated against the CCTV vectors at start-up",
 	}
@@ -236,7 +241,7 @@ func main() {
 	objs := map[string]*objAgg{}
 	byTmpl, byKind, errClasses := map[string]int{}, map[string]int{}, map[string]int{}
 	cover := map[string]map[string]int{"goroutines": {}, "gomaxprocs": {}, "payload": {}, "mix": {}}
-	var rounds, ioCalls int64
+	var rounds, ioCalls, listChecks, seqOps int64
 	rawRaces, ageRaces, harnessRaces := 0, 0, 0
 	dedup := map[string]int{}
 
@@ -245,6 +250,8 @@ func main() {
 			rounds++
 			r.Eval(ro.Ops)
 			ioCalls += ro.IOCalls
+			listChecks += int64(ro.ListChecks)
+			seqOps += int64(ro.SeqOps)
 			cover["goroutines"][fmt.Sprint(ro.G)] += ro.Ops
 			cover["gomaxprocs"][fmt.Sprint(ro.P)] += ro.Ops
 			cover["payload"][fmt.Sprint(ro.Size)] += ro.Ops
@@ -379,6 +386,8 @@ func main() {
 	r.Count("rounds", rounds)
 	r.Count("repetitions", int64(reps))
 	r.Count("io_calls_perturbed", ioCalls)
+	r.Count("shared_list_unchanged_checks", listChecks)
+	r.Count("sequential_pass_ops", seqOps)
 	r.Count("overlapping_pairs_total", int64(totalPairs))
 	r.Count("overlapping_pairs_in_wrap_unwrap_phase_total", int64(totalHead))
 	r.Count("overlap_signatures_total", int64(totalSigs))
